@@ -7,6 +7,11 @@ and precision of every result).  The theorems say what those functions compute.
 `Num.IsVal c v e` reads "c is finite with exact value v·2^e".
 -/
 import CtyModel.Lemmas.NumRound
+import CtyModel.Lemmas.d02Quo
+import CtyModel.Lemmas.d02Reject
+import CtyModel.Lemmas.d02Coll
+import CtyModel.Lemmas.d02Mod
+import CtyModel.Lemmas.d02Has
 namespace CtyModel
 namespace C02
 open Num Value
@@ -180,6 +185,463 @@ theorem indexOkIffHasIndex_false : ¬ IndexOkIffHasIndex := by
 /-! Non-vacuity -/
 example : exactSum false 3 0 true 1 (-1) ≠ 0 := by decide
 example : Num.add (.fin false 3 0 64) (.fin true 1 (-1) 64) = .ok (.fin false 5 (-1) 64) := by decide
+
+/-! ## Deepening (audit of C02): precision-pinned rounding, division, comparison
+methods, per-kind lookups, result types, rejection of wrong-typed operands.
+`D02.RoundNE N p q k`: `q·2^k` is THE nearest-even rounding of `N` at `p`
+significant bits (`k = bitlen N − p` pinned, all `p` bits used, ties to even;
+unique by `rounding_unique`).  `D02.Exact c v e`: `c` is finite with exact value
+`v·2^e`.  `D02.RoundQ N D p q k`: the same for the rational `N/D`. -/
+
+/-- "Arithmetic agrees with exact rational arithmetic to within the precision of
+its operands", ADD on values: the result is a known number of precision
+`max pa pb` whose value is the nearest-even rounding, at exactly that precision,
+of the exact sum `s·2^(min ea eb)`.  (Exact sum zero: `add_exact_zero`.) -/
+theorem add_rounds_to_nearest_even (na nb : Bool) (ma mb : Nat) (ea eb : Int) (pa pb : Nat)
+    (hp : 0 < max pa pb) (hs : D02.exactSum na ma ea nb mb eb ≠ 0) :
+    ∃ (c : Num) (q : Nat),
+      Value.add (numVal (.fin na ma ea pa)) (numVal (.fin nb mb eb pb)) = .ok (numVal c) ∧
+      c.prec = max pa pb ∧
+      D02.Exact c (if D02.exactSum na ma ea nb mb eb < 0 then -(q : Int) else q)
+        (min ea eb + ((bitlen (D02.exactSum na ma ea nb mb eb).natAbs - max pa pb : Nat) : Int)) ∧
+      D02.RoundNE (D02.exactSum na ma ea nb mb eb).natAbs (max pa pb) q
+        (bitlen (D02.exactSum na ma ea nb mb eb).natAbs - max pa pb) := by
+  obtain ⟨c, q, h1, h2, h3, h4⟩ := D02.add_fin_rounds na nb ma mb ea eb pa pb hp hs
+  exact ⟨c, q, by rw [D02.add_num, h1]; rfl, h2, h3, h4⟩
+
+/-- …and an exact sum of zero gives a zero of that precision. -/
+theorem add_exact_zero (na nb : Bool) (ma mb : Nat) (ea eb : Int) (pa pb : Nat)
+    (hs : D02.exactSum na ma ea nb mb eb = 0) :
+    ∃ n, Value.add (numVal (.fin na ma ea pa)) (numVal (.fin nb mb eb pb)) = .ok (numVal (.fin n 0 0 (max pa pb))) := by
+  obtain ⟨n, h⟩ := D02.add_fin_zero na nb ma mb ea eb pa pb hs
+  exact ⟨n, by rw [D02.add_num, h]; rfl⟩
+
+/-- SUBTRACT on values: the nearest-even rounding of the exact difference (the
+exact sum with the second sign flipped) at precision `max pa pb`. -/
+theorem sub_rounds_to_nearest_even (na nb : Bool) (ma mb : Nat) (ea eb : Int) (pa pb : Nat)
+    (hp : 0 < max pa pb) (hs : D02.exactSum na ma ea (!nb) mb eb ≠ 0) :
+    ∃ (c : Num) (q : Nat),
+      Value.sub (numVal (.fin na ma ea pa)) (numVal (.fin nb mb eb pb)) = .ok (numVal c) ∧
+      c.prec = max pa pb ∧
+      D02.Exact c (if D02.exactSum na ma ea (!nb) mb eb < 0 then -(q : Int) else q)
+        (min ea eb + ((bitlen (D02.exactSum na ma ea (!nb) mb eb).natAbs - max pa pb : Nat) : Int)) ∧
+      D02.RoundNE (D02.exactSum na ma ea (!nb) mb eb).natAbs (max pa pb) q
+        (bitlen (D02.exactSum na ma ea (!nb) mb eb).natAbs - max pa pb) := by
+  obtain ⟨c, q, h1, h2, h3, h4⟩ := D02.add_fin_rounds na (!nb) ma mb ea eb pa pb hp hs
+  refine ⟨c, q, ?_, h2, h3, h4⟩
+  rw [D02.sub_num]
+  show (Num.add _ (Num.neg _)).map numVal = _
+  simp only [Num.neg]
+  rw [h1]; rfl
+
+/-- MULTIPLY on values: the nearest-even rounding of the exact product at cty's
+working precision of 512 bits (so at least as precise as either operand), stored
+with precision max(operand precisions, bits the result needs). -/
+theorem mul_rounds_to_nearest_even (na nb : Bool) (ma mb : Nat) (ea eb : Int) (pa pb : Nat) :
+    ∃ (c : Num) (q : Nat),
+      Value.mul (numVal (.fin na ma ea pa)) (numVal (.fin nb mb eb pb)) = .ok (numVal c) ∧
+      D02.Exact c (NumCmp.sgnm (na != nb) q) (ea + eb + ((bitlen (ma * mb) - 512 : Nat) : Int)) ∧
+      D02.RoundNE (ma * mb) 512 q (bitlen (ma * mb) - 512) ∧
+      c.prec = max (max pa pb) c.minPrec := by
+  obtain ⟨c, q, h1, h2, h3, h4⟩ := D02.mul_fin_rounds na nb ma mb ea eb pa pb
+  exact ⟨c, q, by rw [D02.mul_num, h1]; rfl, h2, h3, h4⟩
+
+/-- DIVIDE on values, non-zero finite operands: the nearest-even rounding, to exactly
+`max pa pb` significant bits, of the exact rational quotient
+`(2·ma·2^s / mb)·2^(ea−eb−s−1) = (ma·2^ea)/(mb·2^eb)`. -/
+theorem div_rounds_to_nearest_even (na nb : Bool) (ma mb : Nat) (ea eb : Int) (pa pb : Nat)
+    (hp : 0 < max pa pb) (ha : ma ≠ 0) (hb : mb ≠ 0) :
+    ∃ (c : Num) (s k q : Nat),
+      Value.div (numVal (.fin na ma ea pa)) (numVal (.fin nb mb eb pb)) = .ok (numVal c) ∧
+      c.prec = max pa pb ∧
+      D02.Exact c (NumCmp.sgnm (na != nb) q) (ea - eb - (s : Int) - 1 + (k : Int)) ∧
+      D02.RoundQ (2 * (ma * 2 ^ s)) mb (max pa pb) q k := by
+  obtain ⟨c, s, k, q, h1, h2, h3, h4⟩ := D02.quo_fin_rounds na nb ma mb ea eb pa pb hp ha hb
+  exact ⟨c, s, k, q, by rw [D02.div_num, h1]; rfl, h2, h3, h4⟩
+
+/-- The rounding these theorems speak of is a function of the exact result and the
+precision: no degenerate witness satisfies `RoundNE`. -/
+theorem rounding_unique {N p q k q' k' : Nat} (h : D02.RoundNE N p q k) (h' : D02.RoundNE N p q' k') :
+    q = q' ∧ k = k' := D02.RoundNE.unique h h'
+
+/-- "…and results that fit are exact": nothing is cut off when the exact result
+fits the precision. -/
+theorem rounding_exact_when_fits {N p q k : Nat} (h : D02.RoundNE N p q k) (hf : bitlen N ≤ p) :
+    k = 0 ∧ q = N := h.exact_of_fits hf
+
+/-- Division by zero on values: the documented signed infinity; 0/0 is rejected (NaN). -/
+theorem div_by_zero (na nb : Bool) (ma : Nat) (ea eb : Int) (pa pb : Nat) :
+    Value.div (numVal (.fin na ma ea pa)) (numVal (.fin nb 0 eb pb)) =
+      if ma = 0 then .panic "ErrNaN" else .ok (numVal (.inf (na != nb))) := by
+  rw [D02.div_num, D02.quo_zero]; split <;> rfl
+
+/-- Negate and Absolute are exact: same mantissa, exponent and precision. -/
+theorem neg_abs_known (x : Num) :
+    Value.neg (numVal x) = .ok (numVal (Num.neg x)) ∧ Value.abs (numVal x) = .ok (numVal (Num.abs x)) ∧
+    (∀ n m e p, Num.neg (.fin n m e p) = .fin (!n) m e p) ∧ (∀ n m e p, Num.abs (.fin n m e p) = .fin false m e p) :=
+  ⟨D02.neg_num x, D02.abs_num x, fun _ _ _ _ => rfl, fun _ _ _ _ => rfl⟩
+
+/-! ### the six comparison methods -/
+
+/-- LessThan and GreaterThan are exact comparison (`big.Float.Cmp`, which `cmp_agrees`
+identifies with comparison of the exact values). -/
+theorem lessThan_greaterThan_exact (x y : Num) :
+    Value.lessThan (numVal x) (numVal y) = .ok (boolVal (decide (Num.cmp x y < 0))) ∧
+    Value.greaterThan (numVal x) (numVal y) = .ok (boolVal (decide (Num.cmp x y > 0))) :=
+  ⟨D02.lt_num x y, D02.gt_num x y⟩
+
+/-- What the other four compute: `Equals` on numbers is `rawNumberEqual` (equality
+of the shortest decimal texts, which depends on the precisions), `≤`/`≥` are
+`<`/`>` OR-ed with it, `!=` its negation. -/
+theorem le_ge_eq_ne_compute (x y : Num) :
+    Value.lessThanOrEqualTo (numVal x) (numVal y) = .ok (boolVal (decide (Num.cmp x y < 0) || Num.rawEqual x y)) ∧
+    Value.greaterThanOrEqualTo (numVal x) (numVal y) = .ok (boolVal (decide (Num.cmp x y > 0) || Num.rawEqual x y)) ∧
+    Value.equals (numVal x) (numVal y) = .ok (boolVal (Num.rawEqual x y)) ∧
+    Value.notEqual (numVal x) (numVal y) = .ok (boolVal (!Num.rawEqual x y)) :=
+  ⟨D02.le_num x y, D02.ge_num x y, D02.eq_num x y, D02.ne_num x y⟩
+
+/-- The full clause "comparison operations agree with exact arithmetic" for the four
+methods that go through `Equals`.  FALSE of the code (both directions, below). -/
+def EqualityMethodsExact : Prop :=
+  ∀ x y : Num,
+    Value.lessThanOrEqualTo (numVal x) (numVal y) = .ok (boolVal (decide (Num.cmp x y ≤ 0))) ∧
+    Value.greaterThanOrEqualTo (numVal x) (numVal y) = .ok (boolVal (decide (Num.cmp x y ≥ 0))) ∧
+    Value.equals (numVal x) (numVal y) = .ok (boolVal (decide (Num.cmp x y = 0))) ∧
+    Value.notEqual (numVal x) (numVal y) = .ok (boolVal (decide (Num.cmp x y ≠ 0)))
+
+/-- …it holds exactly where text equality coincides with equality of values
+(`D02.EqExact x y`, decidable), in particular for whole numbers of any precision
+and for a number compared with itself. -/
+theorem equalityMethodsExact_partial (x y : Num) (h : D02.EqExact x y = true) :
+    Value.lessThanOrEqualTo (numVal x) (numVal y) = .ok (boolVal (decide (Num.cmp x y ≤ 0))) ∧
+    Value.greaterThanOrEqualTo (numVal x) (numVal y) = .ok (boolVal (decide (Num.cmp x y ≥ 0))) ∧
+    Value.equals (numVal x) (numVal y) = .ok (boolVal (decide (Num.cmp x y = 0))) ∧
+    Value.notEqual (numVal x) (numVal y) = .ok (boolVal (decide (Num.cmp x y ≠ 0))) :=
+  ⟨D02.le_num_exact h, D02.ge_num_exact h, D02.eq_num_exact h, D02.ne_num_exact h⟩
+
+theorem eqExact_integers (x y : Num) (hx : x.isInt = true) (hy : y.isInt = true) : D02.EqExact x y = true :=
+  D02.eqExact_of_isInt hx hy
+
+/-- Counterexample 1 (equal values, unequal texts): 0.1 at float64 precision against
+the same value stored at 512 bits — `≤`, `≥`, `==` answer False and `!=` True
+although the values are equal. -/
+theorem equality_text_counterexample :
+    let a : Num := .fin false 3602879701896397 (-55) 53
+    let b : Num := .fin false 3602879701896397 (-55) 512
+    Num.cmp a b = 0 ∧
+    Value.lessThanOrEqualTo (numVal a) (numVal b) = .ok (boolVal false) ∧
+    Value.greaterThanOrEqualTo (numVal a) (numVal b) = .ok (boolVal false) ∧
+    Value.equals (numVal a) (numVal b) = .ok (boolVal false) ∧
+    Value.notEqual (numVal a) (numVal b) = .ok (boolVal true) := by
+  intro a b
+  have hr : Num.rawEqual a b = false := by decide +kernel
+  have hc : Num.cmp a b = 0 := by decide
+  refine ⟨hc, ?_, ?_, ?_, ?_⟩
+  · rw [D02.le_num, hr, hc]; rfl
+  · rw [D02.ge_num, hr, hc]; rfl
+  · rw [D02.eq_num, hr]
+  · rw [D02.ne_num, hr]; rfl
+
+/-- Counterexample 2 (unequal values, equal texts): 0.1 at float64 precision is below
+0.1 at 24 bits, yet `==` answers True, `≥` True and `!=` False: both print "0.1". -/
+theorem equality_text_counterexample_coarse :
+    let a : Num := .fin false 3602879701896397 (-55) 53
+    let b : Num := .fin false 13421773 (-27) 24
+    Num.cmp a b = -1 ∧
+    Value.equals (numVal a) (numVal b) = .ok (boolVal true) ∧
+    Value.greaterThanOrEqualTo (numVal a) (numVal b) = .ok (boolVal true) ∧
+    Value.notEqual (numVal a) (numVal b) = .ok (boolVal false) := by
+  intro a b
+  have hr : Num.rawEqual a b = true := by decide +kernel
+  have hc : Num.cmp a b = -1 := by decide
+  refine ⟨hc, ?_, ?_, ?_⟩
+  · rw [D02.eq_num, hr]
+  · rw [D02.ge_num, hr, hc]; rfl
+  · rw [D02.ne_num, hr]; rfl
+
+theorem equalityMethodsExact_false : ¬ EqualityMethodsExact := by
+  intro h
+  have h1 := (h (.fin false 3602879701896397 (-55) 53) (.fin false 3602879701896397 (-55) 512)).2.2.1
+  have h2 := equality_text_counterexample.2.2.2.1
+  rw [h2] at h1
+  have hc : Num.cmp (.fin false 3602879701896397 (-55) 53) (.fin false 3602879701896397 (-55) 512) = 0 := by decide
+  simp [hc, boolVal] at h1
+
+/-! ### lookups return exactly the members the value was constructed from -/
+
+/-- Tuples: Index returns the member and the element type at that position; HasIndex
+answers from the length of the tuple type. -/
+theorem index_tuple (es : List Ty) (vs : List Payload) (i : Nat) (hi : (i : Int) ≤ maxInt) :
+    Value.index ⟨.tuple es, .seq vs⟩ (intVal i) =
+      (match es[i]? with
+       | none => .panic "index out of range"
+       | some t => match vs[i]? with | some p => .ok ⟨t, p⟩ | none => .panic "index out of range") ∧
+    Value.hasIndex ⟨.tuple es, .seq vs⟩ (intVal i) = .ok (boolVal (decide (i < es.length))) :=
+  ⟨D02.index_tuple es vs i hi, D02.hasIndex_tuple es vs i hi⟩
+
+/-- Maps: a present key returns exactly the stored member (of the element type) and
+HasIndex answers True; HasIndex is membership of the key list. -/
+theorem index_map_present (e : Ty) (ks : List String) (vs : List Payload) (k : String) (p : Payload)
+    (h : lookupKey k ks vs = some p) :
+    Value.index ⟨.map e, .smap ks vs⟩ ⟨.string, .s k⟩ = .ok ⟨e, p⟩ ∧
+    Value.hasIndex ⟨.map e, .smap ks vs⟩ ⟨.string, .s k⟩ = .ok (boolVal true) :=
+  D02.index_map_present e ks vs k p h
+
+theorem hasIndex_map (e : Ty) (ks : List String) (vs : List Payload) (k : String) :
+    Value.hasIndex ⟨.map e, .smap ks vs⟩ ⟨.string, .s k⟩ = .ok (boolVal (ks.contains k)) :=
+  D02.hasIndex_map e ks vs k
+
+/-- Length of a map, a wholly known set, a tuple and an object is the number of
+members / attributes (lists: `length_list`). -/
+theorem length_map_set_tuple_object (e : Ty) (ks ns : List String) (ids : List Int) (vs : List Payload)
+    (es ts : List Ty) (os : List Bool) (p : Payload) (hp : p.isMarked = false) :
+    Value.length ⟨.map e, .smap ks vs⟩ = .ok (intVal vs.length) ∧
+    (Payload.whollyKnownL vs = true → Value.length ⟨.set e, .sset ids vs⟩ = .ok (intVal vs.length)) ∧
+    Value.length ⟨.tuple es, p⟩ = .ok (intVal es.length) ∧
+    Value.length ⟨.object ns ts os, p⟩ = .ok (intVal ns.length) :=
+  ⟨D02.length_map e ks vs, D02.length_set e ids vs, D02.length_tuple es p hp, D02.length_object ns ts os p hp⟩
+
+/-- HasElement on a set of wholly known, well-shaped members of a plain element type:
+every member the set holds is reported as an element (the needle's hash being the
+member's bucket id, as the implementation computes it). -/
+theorem hasElement_member (e : Ty) (hw : e.wf = true) (hp : e.plain = true) (ids : List Int) (vs : List Payload)
+    (hg : ∀ p ∈ vs, D02.Good e p) (hl : ids.length = vs.length) (j : Nat) (hj : j < vs.length) :
+    Value.hasElement ⟨.set e, .sset ids vs⟩ ⟨e, vs[j]⟩ (some (ids[j]'(hl ▸ hj))) = .ok (boolVal true) :=
+  D02.hasElement_member e hw hp ids vs hg hl j hj
+
+/-- …and conversely a True answer always comes from a stored member of the needle's
+bucket that `Equals` the needle, a False answer means there is none. -/
+theorem hasElement_true_iff_member (e : Ty) (hw : e.wf = true) (ids : List Int) (vs : List Payload) (x : Payload) (h : Int)
+    (hm : x.containsMarked = false) (hk : x.isKnown = true) :
+    (Value.hasElement ⟨.set e, .sset ids vs⟩ ⟨e, x⟩ (some h) = .ok (boolVal true) → D02.Hit Value.equalsP e h x ids vs) ∧
+    (Value.hasElement ⟨.set e, .sset ids vs⟩ ⟨e, x⟩ (some h) = .ok (boolVal false) → ¬ D02.Hit Value.equalsP e h x ids vs) :=
+  ⟨fun hr => D02.hasElement_true_hit e ids vs ⟨e, x⟩ h hm hr, fun hr => D02.hasElement_false_no_hit e hw ids vs x h hm hk hr⟩
+
+/-- The full clause "HasElement agrees with a linear scan of the members using
+Equals" is FALSE of the code (`hasElement_linear_scan_counterexample`).  It holds
+under the side condition `D02.HashCoherent`: every member that Equals the needle
+sits in the bucket the needle hashes to (true of whole numbers, strings, bools;
+false for non-integer numbers that print alike at their own precisions but differ
+in their 10-digit texts). -/
+def HasElementIsLinearScan : Prop :=
+  ∀ (e : Ty) (ids : List Int) (vs : List Payload) (x : Payload) (h : Int), e.wf = true → e.plain = true →
+    (∀ p ∈ vs, D02.Good e p) → D02.Good e x →
+    Value.hasElement ⟨.set e, .sset ids vs⟩ ⟨e, x⟩ (some h) = .ok (boolVal ((ids.zip vs).any fun q => rawB e x q.2))
+
+theorem hasElement_eq_linear_scan_partial (e : Ty) (hw : e.wf = true) (hp : e.plain = true) (ids : List Int)
+    (vs : List Payload) (hg : ∀ p ∈ vs, D02.Good e p) (x : Payload) (hx : D02.Good e x) (h : Int)
+    (hc : D02.HashCoherent e h x ids vs) :
+    Value.hasElement ⟨.set e, .sset ids vs⟩ ⟨e, x⟩ (some h) = .ok (boolVal ((ids.zip vs).any fun q => rawB e x q.2)) :=
+  D02.hasElement_scan e hw hp ids vs hg x hx h hc
+
+/-- the recorded witness with the bucket ids the implementation computes:
+`SetVal([…, NumberFloatVal(3.9477794105)]).HasElement(MustParseNumberVal("3.9477794105"))` is
+False although the member Equals the needle. -/
+theorem hasElement_linear_scan_counterexample :
+    Value.equals ⟨.number, .n (.fin false 4444804470517179 (-50) 53)⟩
+      ⟨.number, .n (.fin false 6616383510720751409574419276066167347849274831266510936186703153532054316082981444465370061514054905547072918229708187613238190649929064032578605931325323 (-509) 512)⟩
+      = .ok (boolVal true) ∧
+    Value.hasElement ⟨.set .number, .sset [1243578146] [.n (.fin false 4444804470517179 (-50) 53)]⟩
+      ⟨.number, .n (.fin false 6616383510720751409574419276066167347849274831266510936186703153532054316082981444465370061514054905547072918229708187613238190649929064032578605931325323 (-509) 512)⟩
+      (some 1459007788) = .ok (boolVal false) := D02.hasElement_hash_counterexample
+
+theorem hasElementIsLinearScan_false : ¬ HasElementIsLinearScan := by
+  intro h
+  have h1 := h .number [1243578146] [.n (.fin false 4444804470517179 (-50) 53)]
+    (.n (.fin false 6616383510720751409574419276066167347849274831266510936186703153532054316082981444465370061514054905547072918229708187613238190649929064032578605931325323 (-509) 512))
+    1459007788 (by decide) (by decide)
+    (by intro p hp; simp only [List.mem_singleton] at hp; subst hp; exact ⟨by decide, by decide, by decide⟩)
+    ⟨by decide, by decide, by decide⟩
+  rw [hasElement_linear_scan_counterexample.2] at h1
+  have h2 : rawB .number (.n (.fin false 6616383510720751409574419276066167347849274831266510936186703153532054316082981444465370061514054905547072918229708187613238190649929064032578605931325323 (-509) 512))
+      (.n (.fin false 4444804470517179 (-50) 53)) = true := by
+    have : Num.rawEqual (.fin false 6616383510720751409574419276066167347849274831266510936186703153532054316082981444465370061514054905547072918229708187613238190649929064032578605931325323 (-509) 512) (.fin false 4444804470517179 (-50) 53) = true := by decide +kernel
+    simpa [rawB] using this
+  simp [h2, boolVal] at h1
+
+/-- `IndexOkIffHasIndex` restricted to lists and (well-shaped) tuples: for EVERY known,
+unmarked key that is not dynamically typed — whole, fractional, negative, huge,
+infinite, null, or of a wrong type — Index yields a value exactly when HasIndex
+answers True. -/
+theorem indexOkIffHasIndex_partial (k : Value) (hm : k.isMarked = false) (hk : k.isKnown = true)
+    (hd : k.ty.isDyn = false) (e : Ty) (es : List Ty) (vs : List Payload) :
+    ((Value.index ⟨.list e, .seq vs⟩ k).isOk = true ↔ Value.hasIndex ⟨.list e, .seq vs⟩ k = .ok (boolVal true)) ∧
+    (es.length = vs.length →
+      ((Value.index ⟨.tuple es, .seq vs⟩ k).isOk = true ↔ Value.hasIndex ⟨.tuple es, .seq vs⟩ k = .ok (boolVal true))) :=
+  ⟨D02.indexOk_iff_hasIndex_list_key e vs k hm hk hd,
+   fun hl => D02.indexOk_iff_hasIndex_tuple_key es vs hl k hm hk hd⟩
+
+/-! ### result types; wrong-typed operands and missing keys are rejected -/
+
+/-- "Each result has the documented result type": for ALL operands (known or not). -/
+theorem result_types (a b r : Value) (eh : Option Int) :
+    (Value.add a b = .ok r → r.ty = .number) ∧ (Value.sub a b = .ok r → r.ty = .number) ∧
+    (Value.mul a b = .ok r → r.ty = .number) ∧ (Value.div a b = .ok r → r.ty = .number) ∧
+    (Value.mod a b = .ok r → r.ty = .number) ∧ (Value.neg a = .ok r → r.ty = .number) ∧
+    (Value.abs a = .ok r → r.ty = .number) ∧ (Value.length a = .ok r → r.ty = .number) ∧
+    (Value.lessThan a b = .ok r → r.ty = .bool) ∧ (Value.greaterThan a b = .ok r → r.ty = .bool) ∧
+    (Value.lessThanOrEqualTo a b = .ok r → r.ty = .bool) ∧ (Value.greaterThanOrEqualTo a b = .ok r → r.ty = .bool) ∧
+    (Value.equals a b = .ok r → r.ty = .bool) ∧ (Value.notEqual a b = .ok r → r.ty = .bool) ∧
+    (Value.not a = .ok r → r.ty = .bool) ∧ (Value.and a b = .ok r → r.ty = .bool) ∧
+    (Value.or a b = .ok r → r.ty = .bool) ∧ (Value.hasIndex a b = .ok r → r.ty = .bool) ∧
+    (Value.hasElement a b eh = .ok r → r.ty = .bool) ∧
+    (∀ e, a.ty = .list e → Value.index a b = .ok r → r.ty = e) ∧
+    (∀ e, a.ty = .map e → Value.index a b = .ok r → r.ty = e) :=
+  ⟨D02.add_ty, D02.sub_ty, D02.mul_ty, D02.div_ty, D02.mod_ty, D02.neg_ty, D02.abs_ty, D02.length_ty,
+   lessThan_ty, greaterThan_ty, D02.le_ty, D02.ge_ty, equals_ty, D02.ne_ty, D02.not_ty, D02.and_ty, D02.or_ty,
+   D02.hasIndex_ty, D02.hasElement_ty, fun _ hv h => D02.index_ty_list hv h, fun _ hv h => D02.index_ty_map hv h⟩
+
+/-- "Operands of the wrong type are rejected rather than yielding a value": every
+number method, either operand position, whatever the other operand is (marked,
+unknown, null, …).  `D02.Wrong req t`: `t` is neither `req` nor the dynamic pseudo-type. -/
+theorem number_methods_reject_wrong_type (a b : Value) (h : D02.Wrong .number a.ty ∨ D02.Wrong .number b.ty) :
+    Value.add a b = .panic "type mismatch" ∧ Value.sub a b = .panic "type mismatch" ∧
+    Value.mul a b = .panic "type mismatch" ∧ Value.div a b = .panic "type mismatch" ∧
+    Value.mod a b = .panic "type mismatch" ∧ Value.lessThan a b = .panic "type mismatch" ∧
+    Value.greaterThan a b = .panic "type mismatch" ∧ Value.lessThanOrEqualTo a b = .panic "type mismatch" ∧
+    Value.greaterThanOrEqualTo a b = .panic "type mismatch" :=
+  ⟨D02.add_rejects h, D02.sub_rejects h, D02.mul_rejects h, D02.div_rejects h, D02.mod_rejects h,
+   D02.lt_rejects h, D02.gt_rejects h, D02.le_rejects h, D02.ge_rejects h⟩
+
+/-- …the unary number methods and the three logic methods. -/
+theorem unary_and_logic_methods_reject_wrong_type (a b : Value) :
+    (D02.Wrong .number a.ty → Value.neg a = .panic "type mismatch" ∧ Value.abs a = .panic "type mismatch") ∧
+    (D02.Wrong .bool a.ty → Value.not a = .panic "type mismatch") ∧
+    (D02.Wrong .bool a.ty ∨ D02.Wrong .bool b.ty →
+      Value.and a b = .panic "type mismatch" ∧ Value.or a b = .panic "type mismatch") :=
+  ⟨fun h => ⟨D02.neg_rejects h, D02.abs_rejects h⟩, fun h => D02.not_rejects h,
+   fun h => ⟨D02.and_rejects h, D02.or_rejects h⟩⟩
+
+/-- …the lookups: a receiver that cannot be indexed, a key of the wrong type for the
+receiver (number for lists and tuples, string for maps), a receiver of GetAttr that
+is not an object. -/
+theorem lookups_reject_wrong_type (v k : Value) (name : String) :
+    (D02.Indexable v.ty = false → Value.index v k = .panic "not a list, map, or tuple type" ∧
+      Value.hasIndex v k = .panic "not a list, map, or tuple type") ∧
+    (∀ e, v.ty = .list e → D02.Wrong .number k.ty → Value.index v k = .panic "list key must be number") ∧
+    (∀ es, v.ty = .tuple es → D02.Wrong .number k.ty → Value.index v k = .panic "tuple key must be number") ∧
+    (∀ e, v.ty = .map e → D02.Wrong .string k.ty → Value.index v k = .panic "map key must be string") ∧
+    ((match v.ty with | .object _ _ _ | .dyn => true | _ => false) = false →
+      Value.getAttr v name = .panic "not an object") :=
+  ⟨fun h => ⟨D02.index_rejects_receiver h, D02.hasIndex_rejects_receiver h⟩,
+   fun _ hv hk => D02.index_rejects_key_list hv hk, fun _ hv hk => D02.index_rejects_key_tuple hv hk,
+   fun _ hv hk => D02.index_rejects_key_map hv hk, fun h => D02.getAttr_rejects_receiver h⟩
+
+/-- "Missing keys are rejected": a list / tuple key that is not a whole number inside
+the range (negative, fractional, infinite, too large, or ≥ the length) makes
+Index panic.  (Maps: `index_map_missing_counterexample` — not rejected.) -/
+theorem index_missing_key_rejected (e : Ty) (es : List Ty) (vs : List Payload) (x : Num)
+    (h : ∀ i, keyIndex ⟨.number, .n x⟩ = .ok (some i) → vs.length ≤ i) :
+    (Value.index ⟨.list e, .seq vs⟩ ⟨.number, .n x⟩).isOk = false ∧
+    (Value.index ⟨.tuple es, .seq vs⟩ ⟨.number, .n x⟩).isOk = false := by
+  rw [D02.index_list_num, D02.index_tuple_num]
+  obtain ⟨o, ho⟩ := D02.keyIndex_num_ok .number x
+  rw [ho]
+  cases o with
+  | none => exact ⟨rfl, rfl⟩
+  | some i =>
+    have hi := h i ho
+    have h1 : vs[i]? = none := by simp [hi]
+    simp only [h1]
+    refine ⟨rfl, ?_⟩
+    cases es[i]? <;> rfl
+
+/-! ### results that fit are exact; Modulo -/
+
+/-- "Results on integers that fit are exact", ADD (any finite operands, whole or not):
+when the exact sum `s` fits the precision `max pa pb`, the result is `s·2^(min ea eb)`
+itself.  For whole operands (`0 ≤ ea, eb`) that is the integer `a + b`. -/
+theorem add_exact_when_fits (na nb : Bool) (ma mb : Nat) (ea eb : Int) (pa pb : Nat)
+    (hp : 0 < max pa pb) (hs : D02.exactSum na ma ea nb mb eb ≠ 0)
+    (hf : bitlen (D02.exactSum na ma ea nb mb eb).natAbs ≤ max pa pb) :
+    ∃ c : Num, Value.add (numVal (.fin na ma ea pa)) (numVal (.fin nb mb eb pb)) = .ok (numVal c) ∧
+      c.prec = max pa pb ∧ D02.Exact c (D02.exactSum na ma ea nb mb eb) (min ea eb) := by
+  obtain ⟨c, q, h1, h2, h3, h4⟩ := add_rounds_to_nearest_even na nb ma mb ea eb pa pb hp hs
+  obtain ⟨hk, hq⟩ := h4.exact_of_fits hf
+  refine ⟨c, h1, h2, ?_⟩
+  have hk' : bitlen (D02.exactSum na ma ea nb mb eb).natAbs - max pa pb = 0 := by omega
+  rw [hk', hq] at h3
+  simp only [Int.natCast_zero, Int.add_zero] at h3
+  have : (if D02.exactSum na ma ea nb mb eb < 0 then -((D02.exactSum na ma ea nb mb eb).natAbs : Int)
+      else ((D02.exactSum na ma ea nb mb eb).natAbs : Int)) = D02.exactSum na ma ea nb mb eb := by
+    split <;> omega
+  rwa [this] at h3
+
+/-- …SUBTRACT… -/
+theorem sub_exact_when_fits (na nb : Bool) (ma mb : Nat) (ea eb : Int) (pa pb : Nat)
+    (hp : 0 < max pa pb) (hs : D02.exactSum na ma ea (!nb) mb eb ≠ 0)
+    (hf : bitlen (D02.exactSum na ma ea (!nb) mb eb).natAbs ≤ max pa pb) :
+    ∃ c : Num, Value.sub (numVal (.fin na ma ea pa)) (numVal (.fin nb mb eb pb)) = .ok (numVal c) ∧
+      c.prec = max pa pb ∧ D02.Exact c (D02.exactSum na ma ea (!nb) mb eb) (min ea eb) := by
+  obtain ⟨c, q, h1, h2, h3, h4⟩ := sub_rounds_to_nearest_even na nb ma mb ea eb pa pb hp hs
+  obtain ⟨hk, hq⟩ := h4.exact_of_fits hf
+  refine ⟨c, h1, h2, ?_⟩
+  have hk' : bitlen (D02.exactSum na ma ea (!nb) mb eb).natAbs - max pa pb = 0 := by omega
+  rw [hk', hq] at h3
+  simp only [Int.natCast_zero, Int.add_zero] at h3
+  have : (if D02.exactSum na ma ea (!nb) mb eb < 0 then -((D02.exactSum na ma ea (!nb) mb eb).natAbs : Int)
+      else ((D02.exactSum na ma ea (!nb) mb eb).natAbs : Int)) = D02.exactSum na ma ea (!nb) mb eb := by
+    split <;> omega
+  rwa [this] at h3
+
+/-- …MULTIPLY: a product of at most 512 bits is exact, whatever the operand precisions. -/
+theorem mul_exact_when_fits (na nb : Bool) (ma mb : Nat) (ea eb : Int) (pa pb : Nat)
+    (hf : bitlen (ma * mb) ≤ 512) :
+    ∃ c : Num, Value.mul (numVal (.fin na ma ea pa)) (numVal (.fin nb mb eb pb)) = .ok (numVal c) ∧
+      D02.Exact c (NumCmp.sgnm (na != nb) (ma * mb)) (ea + eb) ∧ c.prec = max (max pa pb) c.minPrec := by
+  obtain ⟨c, q, h1, h2, h3, h4⟩ := mul_rounds_to_nearest_even na nb ma mb ea eb pa pb
+  obtain ⟨hk, hq⟩ := h3.exact_of_fits hf
+  refine ⟨c, h1, ?_, h4⟩
+  have hk' : bitlen (ma * mb) - 512 = 0 := by omega
+  rw [hk', hq] at h2
+  simpa using h2
+
+/-- Modulo on known numbers is `D02.modNum` (the Go control flow); with an infinite
+operand it answers what Multiply answers, with a zero divisor it returns the receiver. -/
+theorem mod_known (x y : Num) :
+    Value.mod (numVal x) (numVal y) = (D02.modNum x y).map numVal ∧
+    ((x.isInf || y.isInf) = true → D02.modNum x y = Num.mulCty x y) ∧
+    (x.isInf = false → y.isZero = true → D02.modNum x y = .ok x) :=
+  ⟨D02.mod_num x y, D02.modNum_inf x y, D02.modNum_zero x y⟩
+
+/-- The clause "modulo is the remainder of truncated division by a non-zero divisor"
+(`D02.ModIsTruncRem`, whole operands) is FALSE of the code: 1e17 held at float64
+precision modulo 7 is 16.  The specification side (sign of the dividend, `|r| < |y|`)
+is `D02.truncRem_spec`; int64-built instances on which the clause holds: `D02.mod_instances`. -/
+theorem mod_is_trunc_rem_counterexample :
+    Value.mod (numVal (.fin false 762939453125 17 53)) (intVal 7) = .ok (numVal (.fin false 1 4 53)) ∧
+    (Num.fin false 762939453125 17 53).toInt? = some 100000000000000000 ∧
+    Int.tmod 100000000000000000 7 = 5 ∧ ¬ D02.ModIsTruncRem := by
+  refine ⟨?_, D02.mod_float_counterexample.2.1, D02.mod_float_counterexample.2.2, D02.modIsTruncRem_false⟩
+  show Value.mod (numVal _) (numVal (Num.ofInt 7 64)) = _
+  rw [D02.mod_num, D02.mod_float_counterexample.1]; rfl
+
+/-- what the remainder of truncated division is: sign of the dividend, smaller than the divisor -/
+theorem trunc_rem_spec (X Y : Int) (hY : Y ≠ 0) :
+    Int.tmod X Y = X - Y * Int.tdiv X Y ∧ (Int.tmod X Y).natAbs < Y.natAbs ∧
+    (0 ≤ X → 0 ≤ Int.tmod X Y) ∧ (X ≤ 0 → Int.tmod X Y ≤ 0) := D02.truncRem_spec X Y hY
+
+/-- on these int64-built (and one fractional) instances Modulo IS that remainder -/
+theorem mod_instances :
+    Value.mod (intVal 17) (intVal (-5)) = .ok (intVal 2) ∧
+    Value.mod (intVal (-17)) (intVal 5) = .ok (intVal (-2)) ∧
+    Value.mod (intVal 9223372036854775807) (intVal 1000000007) = .ok (intVal (Int.tmod 9223372036854775807 1000000007)) := by
+  refine ⟨?_, ?_, ?_⟩ <;>
+    (show Value.mod (numVal (Num.ofInt _ 64)) (numVal (Num.ofInt _ 64)) = _
+     rw [D02.mod_num]
+     first | rw [D02.mod_instances.1] | rw [D02.mod_instances.2.1] | rw [D02.mod_instances.2.2.1]
+     rfl)
+
+/-! Non-vacuity of the new hypotheses -/
+example : D02.exactSum false 3 0 true 1 (-1) ≠ 0 := by decide
+example : bitlen (D02.exactSum false 3 0 true 1 (-1)).natAbs ≤ max 53 64 := by decide
+example : D02.RoundNE 5 2 2 1 := ⟨by decide, by decide, by decide, by decide, by decide, by decide⟩
+example : Value.div (numVal (.fin false 1 0 64)) (numVal (.fin false 3 0 64)) =
+    .ok (numVal (.fin false 12297829382473034411 (-65) 64)) := by decide
+example : D02.EqExact (.fin false 3 0 53) (.fin false 3 0 512) = true := by decide
+example : D02.Wrong .number Ty.string := ⟨by decide, by decide⟩
+example : D02.Good .string (.s "a") := ⟨by decide, by decide, by decide⟩
+example : keyIndex ⟨.number, .n (.fin false 1 (-1) 53)⟩ = .ok none := by decide
 
 end C02
 end CtyModel
